@@ -355,19 +355,19 @@ func c01Cmp(op string) func(a, b *c01V) (*c01V, bool) {
 	}
 }
 
+// c01Select: a filter — the current node is kept (once) when any result of the predicate is neither null nor false.
 func c01Select(pred c01F) c01F {
 	return c01Each(func(v *c01V) ([]*c01V, bool) {
 		r, ok := pred([]*c01V{v})
 		if !ok {
 			return nil, false
 		}
-		var out []*c01V
 		for _, x := range r {
 			if c01Truthy(x) {
-				out = append(out, v)
+				return []*c01V{v}, true
 			}
 		}
-		return out, true
+		return nil, true
 	})
 }
 
@@ -603,14 +603,16 @@ var c01Sum = c01Each(func(v *c01V) ([]*c01V, bool) {
 	return []*c01V{c01Int(s)}, true
 })
 
-// c01Alt: `//` pairs like every binary operator: each left result is kept when it is neither null nor false,
-// otherwise the right result takes its place.
+// c01Alt: `//` answers from the left result alone when it is neither null nor false (once, like and/or);
+// otherwise the left result is replaced by each right result.
 func c01Alt(f, g c01F) c01F {
-	return c01Bin(f, g, func(a, b *c01V) (*c01V, bool) {
-		if c01Truthy(a) {
-			return a, true
-		}
+	return c01BinSC(f, g, func(a, b *c01V) (*c01V, bool) {
 		return b, true
+	}, func(a *c01V) *c01V {
+		if c01Truthy(a) {
+			return a
+		}
+		return nil
 	})
 }
 
